@@ -85,7 +85,7 @@ def main():
             "name": "sim",
             "path": "/verif/sim",
             "serves_properties": sorted(claimed),
-            "kind_free_text": "deterministic simulator: real remoc code on a tokio current-thread runtime with paused clock and seeded select!, harness-owned in-memory transport with fault injection, poll-deferral task adapter (H1), lock-step helper threads (H2), seeded port numbers (H3); seeded search over runs, choice-list replay and shrinking",
+            "kind_free_text": "deterministic simulator: real remoc code on a tokio current-thread runtime with paused clock and seeded select!, harness-owned in-memory transport with fault injection, poll-deferral task adapter (H1), lock-step helper threads (H2) with drawn slow-thread profiles, seeded port numbers (H3), fixed-key hashers for order-sensitive tables (H4); seeded search over runs, choice-list replay and shrinking",
         }],
         "checks": checks,
         "not_applicable": na,
